@@ -159,6 +159,10 @@ def run_connect(case, res: Result):
                     starttls=cap, faults=faults, encodings="quoted")
     sess = mslab.Session(srv, tls_outcome=tls)
     CALLS[0] += 1
+    if CALLS[0] % 3 == 0:
+        srv.lookalike_texts = True
+        srv.rng = random.Random(CALLS[0])
+        res.count("connects-against-look-alike-status-texts")
     if CALLS[0] % 2:
         # the documented positional order: connect(login, password, authz_id, starttls, authmech)
         out = sess.call("connect", LOGIN, PW, "", starttls, mech)
@@ -331,6 +335,9 @@ def run_random_histories(shard, res: Result):
                                         scripts={b"s": b"keep;\r\n"})
                 sess.wire = ms.Wire()
                 sess.tls_outcome = tls
+                if rng.random() < 0.3:
+                    sess.server.lookalike_texts = True
+                    sess.server.rng = random.Random(rng.randrange(1 << 30))
                 if rng.random() < 0.5:
                     out = sess.call("connect", LOGIN, PW, "", starttls,
                                     rng.choice([None, "PLAIN", "LOGIN"]))
